@@ -45,6 +45,7 @@ type Config struct {
 	MaxSteps   int64
 	FuncYield  bool // honour Yield() calls inserted at function entries
 	StmtYield  bool // honour YieldStmt() calls inserted before every statement of the core store files
+	BiasTag    string // random walk: a running task with this tag is preempted with probability 1/2 (targets its windows)
 	EpochUnix  int64
 }
 
@@ -472,7 +473,11 @@ func (w *World) decide(self *task, cands []*task) int {
 			idx = free[w.polrng.intn(len(free))]
 		}
 	default:
-		if cands[0] == self && w.polrng.intn(w.Cfg.PreemptDen) != 0 {
+		den := w.Cfg.PreemptDen
+		if w.Cfg.BiasTag != "" && self != nil && self.tag == w.Cfg.BiasTag && den > 2 {
+			den = 2
+		}
+		if cands[0] == self && w.polrng.intn(den) != 0 {
 			idx = 0
 		} else {
 			idx = w.polrng.intn(len(cands))
